@@ -206,6 +206,22 @@ CLAIMED["C17"] = dict(
     technique="Lean 4 proof over all fault positions of a step-level model of the front-ends + fault-injection correspondence (all k) + file-system snapshot oracle",
     design="§5 C17")
 
+CLAIMED["C11"] = dict(
+    text=("Lean theorems about the package-level save (all packages, all results of a session): C11_untouched_parts (every "
+          "part that is not a rewritten story or a comment part is in the saved package with the same name, content type "
+          "and content), C11_no_part_lost', C11_rels_kept (existing relationships of the main document keep id, type, "
+          "target), C11_untargeted_story, C11_only_expected_parts. The engine's results for stories and comment parts are "
+          "parameters. Correspondence: abstract view (part names, effective content types, canonical content, document "
+          "relationships) of the real input package + those parameters -> the model's package == abstract view of the "
+          "real saved package, on generated packages with optional parts removed (custom XML, theme, web settings, "
+          "numbering, font table, styles with effects) or added (media, embedded object, footnotes, custom XML, unknown "
+          "part), headers/footers, with/without comment parts x edit batches, review actions, replies, accept-all. Oracle: "
+          "zip members, content types, relationship files, canonical XML before/after; section / paragraph / table "
+          "properties retained."),
+    note=NOTE_COMMON + "canonical XML = C14N without white-space-only text nodes; relationship files as sets.",
+    technique="Lean 4 proof of the frame property of the package-level save + differential correspondence on abstract packages + member-by-member oracle",
+    design="§5 C11")
+
 PENDING = {
 }
 
